@@ -8,16 +8,20 @@ from . import topo_common as tc
 def run(tier, seed):
     rep = Report("C07", tier, seed)
     quick = tier == "quick"
-    for sd, d in (("empty", 3 if quick else 5), ("two", 2 if quick else 3), ("svc", 2 if quick else 3)):
-        tc.model_check(rep, "MC_FimTopology seed=" + sd, tc.consts(d if quick or sd == "empty" else d + 1, sd, "full"))
-    scripts = []
-    for sd in (("svc",) if quick else ("two", "svc", "rich")):
-        scripts += tc.generate(rep, "Gen_FimTopology seed=" + sd, tc.consts(3 if quick or sd == "rich" else 4, sd, "full"), workers=8)
-    scripts += tc.generate(rep, "Gen_FimTopology seed=twin", tc.consts(2 if quick else 3, "twin", "full"), workers=8)
-    tc.run_and_validate(rep, scripts, "tlc-generated building/removal behaviours from seeded topologies")
+    M = lambda name, c: (lambda: tc.model_check(rep, name, c))
+    G = lambda name, c: (lambda: tc.generate(rep, name, c, workers=8))
+    jobs = [M("MC_FimTopology seed=" + sd, tc.consts(d if quick or sd == "empty" else d + 1, sd, "full"))
+            for sd, d in (("empty", 3 if quick else 5), ("two", 2 if quick else 3), ("svc", 2 if quick else 3))]
     # substrate flavour: explicit ids, node-level services, explicit links, composite builders
-    tc.model_check(rep, "MC_FimTopology substrate seed=sub", tc.consts(3 if quick else 4, "sub", "full", "substrate"))
-    sscripts = tc.generate(rep, "Gen_FimTopology substrate seed=sub", tc.consts(3 if quick else 4, "sub", "full", "substrate"), workers=8)
+    jobs.append(M("MC_FimTopology substrate seed=sub", tc.consts(3 if quick else 4, "sub", "full", "substrate")))
+    gens = [G("Gen_FimTopology seed=" + sd, tc.consts(3 if quick or sd == "rich" else 4, sd, "full"))
+            for sd in (("svc",) if quick else ("two", "svc", "rich"))]
+    gens.append(G("Gen_FimTopology seed=twin", tc.consts(2 if quick else 3, "twin", "full")))
+    gens.append(G("Gen_FimTopology substrate seed=sub", tc.consts(3 if quick else 4, "sub", "full", "substrate")))
+    res = tc.together(quick, *(jobs + gens))[len(jobs):]
+    scripts = [x for r in res[:-1] for x in r]
+    sscripts = res[-1]
+    tc.run_and_validate(rep, scripts, "tlc-generated building/removal behaviours from seeded topologies")
     tc.run_and_validate(rep, sscripts, "tlc-generated substrate-model behaviours", flavour="substrate")
     rng = random.Random(seed)
     gen = tc.RandomTopoOps(rng)
